@@ -606,6 +606,13 @@ static void *resumer(void *p)
         for (int i = 0; i < nunits; i++) {
             unit *u = &U[i];
             if (claim_resume(u)) {
+                if (late_cancels > 0 && u->parent < 0 && sc_rnd(3) == 0) {
+                    /* it is suspended (BLOCKED) and about to be resumed: a cancellation posted now must take effect at
+                     * its next scheduling point */
+                    gate_lock();
+                    late_cancel_locked(i);
+                    gate_unlock();
+                }
                 vs_log("apiCall resume U%d", i);
                 ABT_OK(ABT_thread_resume(u->th));
                 vs_note("apiRet resume U%d", i);
@@ -742,7 +749,7 @@ int main(int argc, char **argv)
                 extj[nextj++] = tops[i];
             }
         }
-    late_cancels = sc_rnd(3) == 0 ? 1 : 0;
+    late_cancels = sc_rnd(2);
     pthread_create(&jt, NULL, ext_joiner, NULL);
     /* join the top-level units; some get a second life (revive); with an early stream join some are left for later */
     int later[16], nl = 0;
